@@ -668,6 +668,74 @@ def listed_finding_case(chk):
     return None
 
 
+# ---- concurrent first queries -------------------------------------------------------------------
+CONC_SETUPS = [
+    # (manager kind, links, [query of thread 0, query of thread 1])
+    ("rm", [("/book/:id", "book_group"), ("book_group", "readers")], [("/book/77", "readers"), ("/book/77", "book_group")]),
+    ("rm", [("/book/:id", "book_group"), ("/book/*", "pen_group")], [("/book/1", "book_group"), ("/book/1", "pen_group")]),
+    ("rm", [("/book/:id", "book_group"), ("/book/1", "archive")], [("/book/1", "book_group"), ("/book/2", "book_group")]),
+    ("rm", [("/book/:id", "book_group")], [("/pen/1", "book_group"), ("/book/9", "book_group")]),
+    ("dm", [("alice", "admin", "*"), ("admin", "root", "d1")], [("alice", "root", "d1"), ("alice", "admin", "d1")]),
+    ("dm", [("alice", "admin", "d*"), ("bob", "admin", "d1")], [("alice", "admin", "d1"), ("bob", "admin", "d2")]),
+]
+
+
+def _conc_make(kind, links):
+    from casbin.rbac import default_role_manager
+    from casbin.util import key_match2_func, key_match_func
+    if kind == "rm":
+        rm = default_role_manager.RoleManager(10)
+        rm.add_matching_func(key_match2_func)
+    else:
+        rm = default_role_manager.DomainManager(10)
+        rm.add_domain_matching_func(key_match_func)
+    for l in links:
+        rm.add_link(*l)
+    return rm
+
+
+def conc_run(setup, choose, lines):
+    from .. import sched
+    kind, links, queries = setup
+    rm = _conc_make(kind, links)
+    out = {}
+
+    def body(tid):
+        with sched.preemptible(lambda fn: "/casbin/" in fn, lines=lines):
+            try:
+                out[tid] = bool(rm.has_link(*queries[tid]))
+            except Exception as ex:  # noqa
+                out[tid] = "raise:" + type(ex).__name__
+    res = sched.Controller().run([body, body], choose)
+    res.out = [out.get(0), out.get(1)]
+    return res
+
+
+def stratum_concurrent(chk, lines):
+    """two threads issue the FIRST queries about never-seen names concurrently (what two readers inside the same
+    SyncedEnforcer read section do): for every schedule with one preemption at function-call (thorough: source-line)
+    granularity inside casbin/, each query must answer what it answers alone - 'whatever the order in which names
+    were first queried'.  SPEC only; the replay is the schedule."""
+    from .. import sched
+    n = 0
+    with sched.pinned_cpu():
+        for si, setup in enumerate(CONC_SETUPS):
+            rm = _conc_make(setup[0], setup[1])
+            want = [bool(rm.has_link(*q)) for q in setup[2]]
+            reported = False
+            for a, k, res in sched.one_preemption_schedules(lambda ch: conc_run(setup, ch, lines)):
+                n += 1
+                chk.count(("concurrent", si, a, k))
+                if (res.status != "ok" or res.out != want) and not reported:
+                    reported = True
+                    chk.spec_fail(dict(stratum="concurrent-first-queries", setup=si, manager=setup[0], links=setup[1],
+                                       queries=setup[2], granularity="line" if lines else "call", schedule=res.schedule),
+                                  dict(status=res.status, answers=res.out, errors=[str(e) for e in res.errors]), want,
+                                  "two concurrent first queries: an answer differs from the answer of the query alone")
+    chk.extra.setdefault("strata", {})
+    chk.extra["concurrent_first_query_schedules"] = n
+
+
 def run(chk, tier):
     rng = chk.rng
     thorough = tier == "thorough"
@@ -694,10 +762,13 @@ def run(chk, tier):
     feed(gen_random(rng, 4000 if thorough else 500, ["erm", "edm"]))
     feed(gen_random(rng, 15000 if thorough else 2000, ["rm", "dm", "dm"], tie_only=True))
     spec_tie(chk, rng, 3000 if thorough else 500)
+    stratum_concurrent(chk, lines=thorough)
     chk.exhaustive = True
     chk.extra["strata"] = state["strata"]
     chk.extra["histories_per_manager"] = state["kinds"]
     chk.extra["histories_showing_the_listed_finding"] = state["f14"]
+    chk.rule += ("; concurrent stratum: two threads issuing first queries about never-seen names on one RoleManager / "
+                 "DomainManager with matching functions, every one-preemption schedule at call (thorough: line) granularity")
     chk.extra["exhaustive_scope"] = (f"every sequence of <= {6 if thorough else 5} calls over 4 adds / their deletes / 3 queries "
                                      "(no add of an assignment in force, no delete of an absent one) for two pattern "
                                      "universes (mutually matching /book/:id, /book/*; overlapping /book/:id, /*/1) and for "
@@ -713,6 +784,19 @@ def run(chk, tier):
 def replay(chk):
     rec = json.load(open(chk.replay_file))
     c = rec.get("case") or rec.get("replay") or {}
+    if c.get("stratum") == "concurrent-first-queries":
+        from .. import sched
+        setup = (c["manager"], [tuple(l) for l in c["links"]], [tuple(q) for q in c["queries"]])
+        rm = _conc_make(setup[0], setup[1])
+        want = [bool(rm.has_link(*q)) for q in setup[2]]
+        with sched.pinned_cpu():
+            res = conc_run(setup, sched.follow(list(c["schedule"])), c.get("granularity") == "line")
+        print(f"replay: schedule of {len(c['schedule'])} steps -> status {res.status}, answers {res.out}, alone {want}")
+        if res.status != "ok" or res.out != want:
+            print(f"VIOLATION property={chk.prop} replay={chk.replay_file}")
+            sys.exit(1)
+        print("replay passes: both queries answer as they do alone under this schedule")
+        sys.exit(0)
     if "ops" not in c:
         print("replay file names a broken theorem/correspondence, not an input:", json.dumps(rec.get("broken"))[:800])
         sys.exit(1)
